@@ -79,6 +79,21 @@ CHECKS = {
             "Unconditional predicates always; identity of the QR basis only where n*u*prod(cond) keeps the comparison meaningful (fraction reported).",
             "float64 QR/eigh reference; sign and iteration-count ambiguity resolved as described in DESIGN C12.",
             "6/C12"),
+    "C06": ("exploration",
+            "in-process multi-rank simulation (torch threaded process group, harness-owned rendezvous gates and deadlock monitor) over Hypothesis-generated worlds and histories; bitwise differential against the single-process optimizer (rounding-shim oracle for reduced-precision communication), replica agreement, trace invariants on collective and process-group-creation sequences",
+            "Every simulated rank's parameters are compared bitwise with the serial optimizer after every step; collective sequences (T1) and new_group waves (T2) are checked on recorded traces; a rank left waiting is detected deterministically. Timing independence is discharged through T1/T2 as a sufficient condition, not by replaying real backend races.",
+            "Thread backend on CPU; world sizes <= 4 quick / 8 thorough; open findings F5, F6, F10 excluded by construction (counted) and kept visible by directed probes.",
+            "5, 6/C06"),
+    "C07": ("exploration",
+            "simulated shard ranks over flat-parameter shards with generated boundaries (mid-row, empty); bitwise differential against the single-process optimizer on the reference decomposition's sub-tensors; for HSDP additionally replica agreement, trace invariants and deadlock monitor",
+            "Each rank's flat shards must be bitwise the serial result on independently recovered sub-tensors after every step; parameters with an empty local shard must own no state.",
+            "Flat-parameter sharding model of the harness (concatenate, equal chunks); reference decomposition certified minimal by C15; simulator assumptions of C06.",
+            "5, 6/C07"),
+    "C08": ("exploration",
+            "simulated ranks over dim-0 sharded DTensor parameters (uneven and empty local shards, 1-D and 2-D meshes); bitwise differential against the single-process optimizer on each rank's local tensors; HybridShard: replica agreement, trace invariants, deadlock monitor",
+            "param.to_local() on every rank after every step must be bitwise the serial result; empty local shards carry no state; absent DTensor gradients are absent.",
+            "DTensor.from_local with explicit global shape/stride stands in for fully_shard / distribute_tensor; simulator assumptions of C06.",
+            "5, 6/C08"),
 }
 
 PENDING_REASON = "check not built yet at this commit (work in progress; all eighteen properties are planned to be claimed, see DESIGN.md section 0)"
